@@ -93,6 +93,8 @@ def run(ctx):
             out, lo = fmt.load(vd)
             if lo is not None:      # a legacy instrument saved again must not lose what it carried
                 evs.append(fmt.roundtrip_event(lo, spec, w=False))
+        if i % 5 == 2:        # history: save, edit in place, save, load, edit the LOADED instrument, save
+            evs += fmt.chain_events(api.Synth(sm), spec, rnd, w=False)[0][1:]
         for j, ev in enumerate(evs):
             traces.append({"id": "s%d.%d" % (i, j), "events": [ev]})
             ctx.count_case((i, j, json.dumps(ev.get("orig", ev.get("chunks")), sort_keys=True)[:5000]), nontrivial=nontriv)
